@@ -9,6 +9,18 @@
   etcd-sibling-url-two-backends.jsonl   both /foo and /foobar are etcd backends with their own secrets: a request of
                                   /foobar is b2's.  Before the repair it was attributed to b1 (first key): b2's own
                                   checksum was refused and one made with b1's secret accepted.
+
+  reload-rotates-common-secret.jsonl    static storage, b1 has no own secret and uses the common [backend] secret; a reload
+                                  rotates the common secret: the request signed with the old one must be refused, the one
+                                  signed with the new one accepted, outgoing requests carry the new checksum.  (Seeded change
+                                  C02-3 — Reload handing getConfiguredHosts a value cached at startup — fails at ops 4 and 7.)
+  redirect-other-origin.jsonl     b1 http://H1/one/ and b2 http://H2/one/ (same host name, other port): b1 answers with
+                                  redirects to b2's url, to its own path under another host name, under https; none may be
+                                  followed (seeded change C02-4 — CheckRedirect comparing Hostname() — follows the first);
+                                  redirects within b1 are followed (301: a GET without body, 307: the POST again).
+  redirect-within-origin.jsonl    b1 http://H1/one/ and b2 http://H1/two/ on one origin: a 307 to b2's url is followed, b2
+                                  receives the POST with the checksum made with b1's secret: open known finding
+                                  C02-redirect-within-origin-leaves-backend.
 """
 import hashlib, hmac, json, os
 
@@ -34,9 +46,11 @@ PATH = "/ocs/v2.php/apps/spreed/api/v1/signaling/backend"
 BODY = b'{"type":"message","message":{"data":{"n":1}}}'
 
 
-def cfg(mode, backends):
-    return "cfg - %s u=%s" % (",".join("%s:%s" % (i, x(s)) for i, _, s in backends),
-                              enc(mode + ";" + ";".join("%s=%s" % (i, u) for i, u, _ in backends)))
+def cfg(mode, backends, verb="cfg", common=None):
+    """backends: (id, url, own secret or None)"""
+    return "%s - %s%s u=%s" % (verb, ",".join("%s:%s" % (i, x(s or b"")) for i, _, s in backends),
+                               " cs=" + x(common) if common else "",
+                               enc(mode + ";" + ";".join("%s=%s" % (i, u) for i, u, _ in backends)))
 
 
 def sign(label, bid, random):
@@ -48,8 +62,9 @@ def req(label, tok, hdr, random, sum_, tag):
         label, tok, x(random), x(sum_), x(BODY), len(BODY), enc(hdr), enc(random), enc(sum_), tag)
 
 
-def out(kind, owner, base):
-    return "out %s %s u=%s" % (kind, owner, enc(base.rstrip("/") + PATH))
+def out(kind, owner, base, hops=()):
+    rd = " rd=" + enc(";".join("%d %s" % (c, l) for c, l in hops)) if hops else ""
+    return "out %s %s u=%s%s" % (kind, owner, enc(base.rstrip("/") + PATH), rd)
 
 
 def write(name, ops):
@@ -83,4 +98,35 @@ write("etcd-sibling-url-two-backends.jsonl", [
     req("L0", "b:b1", "http://H1/foo/", r2, c2, "claims-other-backend"),
     out("auth", "b2", "http://H1/foobar"),
     out("auth", "b1", "http://H1/foo"),
+])
+
+# the common secret is rotated by a reload
+old, new = b"common-secret-at-startup", b"common-secret-after-rotation"
+r3, r4 = "3c" * 32, "4d" * 32
+write("reload-rotates-common-secret.jsonl", [
+    cfg("backends", [("b1", "http://H1/one/", None), ("b2", "http://H1/two/", b"own-secret-of-two")], common=old),
+    sign("L0", "b1", r3),
+    req("L0", "b:b1", "http://H1/one/", r3, checksum(r3, BODY, old), "valid"),
+    cfg("backends", [("b1", "http://H1/one/", None), ("b2", "http://H1/two/", b"own-secret-of-two")], verb="reload", common=new),
+    req("L0", "b:b1", "http://H1/one/", r3, checksum(r3, BODY, old), "old-signature-after-reload"),
+    sign("L1", "b1", r4),
+    req("L1", "b:b1", "http://H1/one/", r4, checksum(r4, BODY, new), "valid-after-reload"),
+    req("L1", "b:b1", "http://H1/one/", r4, checksum(r4, BODY, old), "rotated-out-secret"),
+    out("ping", "b1", "http://H1/one/"),
+    out("ping", "b2", "http://H1/two/"),
+])
+
+sa, sb = b"secret-of-one", b"secret-of-the-other"
+write("redirect-other-origin.jsonl", [
+    cfg("backends", [("b1", "http://H1/one/", sa), ("b2", "http://H2/one/", sb)]),
+    out("room-join", "b1", "http://H1/one/", [(307, "http://H2/one" + PATH)]),
+    out("room-join", "b1", "http://H1/one/", [(308, "http://N1/one" + PATH)]),
+    out("room-join", "b1", "http://H1/one/", [(303, "https://H1/one" + PATH)]),
+    out("room-join", "b1", "http://H1/one/", [(301, "http://H1/one/index.php" + PATH)]),
+    out("room-join", "b1", "http://H1/one/", [(307, "http://H1/one/index.php" + PATH), (308, "http://H2/one" + PATH)]),
+    out("ping", "b2", "http://H2/one/", [(302, "http://H1/one" + PATH)]),
+])
+write("redirect-within-origin.jsonl", [
+    cfg("backends", [("b1", "http://H1/one/", sa), ("b2", "http://H1/two/", sb)]),
+    out("room-join", "b1", "http://H1/one/", [(307, "http://H1/two" + PATH)]),
 ])
